@@ -2,6 +2,7 @@ SPECIFICATION Spec
 CONSTANTS
   Creations = {1, 2}
   MaxSet = 2
+  GivesBackOnFailure = FALSE
   CreationRewinds = TRUE
   Threads = {t1, t2}
   MaxId = 3
